@@ -166,14 +166,20 @@ def body(chk: check.Check):
         pjobs['pairs of parameters, histories of <= 4 steps'] = (qrows, pool.submit(
             run_tlc, 'ParamGen', pio.cfg(4, pio.MODEL_INVARIANTS + ['EmitInv'], pio.MODEL_PROPERTIES),
             extra_modules={'ParamGen': pio.module(qrows, pairs)}, workers=4, timeout=1500, heap='4g'))
-        pjobs['random walks over all parameters at once'] = (qrows, pool.submit(
-            run_tlc, 'ParamGen', pio.cfg(12, ['TypeOK', 'RoundTrip', 'EmitInv'], view=False),
-            extra_modules={'ParamGen': pio.module(qrows, [[r['key'] for r in qrows]])}, workers=1, timeout=1500, heap='4g',
-            simulate=dict(num=250), depth=13, seed=chk.seed % 100000 + 7))
+        walk = ['Output/generate_html', 'Output/identification_threshold', 'Estimation/optimization_algorithm',
+                'Estimation/bootstrap_samples', 'SimpleBounds/second_derivatives', 'MonteCarlo/seed', 'Biogeme/version',
+                'Specification/missing_data']
+        assert all(k in by for k in walk)
+        # (in simulation mode TLC evaluates EmitInv on every generated successor: every one-step deviation
+        #  from the walks is printed as well)
+        pjobs['random walks over 8 parameters of different sections at once'] = (qrows, pool.submit(
+            run_tlc, 'ParamGen', pio.cfg(10, ['TypeOK', 'RoundTrip', 'EmitInv'], view=False),
+            extra_modules={'ParamGen': pio.module(qrows, [walk])}, workers=1, timeout=1500, heap='4g',
+            simulate=dict(num=25), depth=11, seed=chk.seed % 100000 + 7, max_emitted=30000))
     pmut = pool.submit(run_tlc, 'ParamGen', pio.cfg(2, ['TypeOK', 'RoundTrip'], mutant='native_bool'),
                        extra_modules={'ParamGen': pio.module(rows, singles[:3])}, workers=1, timeout=600, heap='1g')
 
-    rfamily, rstale = ('IO_Small', 'IO_Stale4') if quick else ('MC_Quick \\cup IO_Small', 'IO_Stale2')
+    rfamily, rstale = ('IO_Small', 'IO_Stale4') if quick else ('IO_Full', 'IO_Stale2')
     rjob = pool.submit(run_tlc, 'ResultsIO', RESULTS_CFG.format(family=rfamily, stale=rstale, mutant='none'), workers=4,
                        timeout=2400, heap='6g')
     rmut = pool.submit(run_tlc, 'ResultsIO', RESULTS_CFG.format(family='MC_Tiny', stale='IO_Stale4', mutant='load_first'), workers=1,
